@@ -594,7 +594,7 @@ def register5(R):
         l0, l1 = L.entry_heap.l(s), L.heap.l(s)
         n = l0.len
         idx = i_of(L.t('index'))
-        return inv_list_parts(c, L.heap, s, 'views') + [('wf', wf_children(c, L.heap, s)), ('same-len', z3.And(l1.len == n, chref(L.heap, s) == chref(L.entry_heap, s))),
+        return inv_list_parts(c, L.heap, s, 'C14+C15+C17.views') + [('wf', wf_children(c, L.heap, s)), ('same-len', z3.And(l1.len == n, chref(L.heap, s) == chref(L.entry_heap, s))),
                                                         ('index-stable', z3.And(is_int(L.t('index')), 0 <= idx, idx < n)),
                                                         ('nodes', all_items_nodes(c, L.heap, s)),
                                                         ('cls-stable', _cls_stable(L.entry_heap, L.heap))] + shifted(l0, l1, idx, idx + L.i, n, 'i')
@@ -605,7 +605,7 @@ def register5(R):
         n = l0.len
         idx = norm(i_of(c['index']), n)
         p = z3.Int('!dp')
-        return inv_list_parts(c, c.post, s) + [
+        return inv_list_parts(c, c.post, s, 'C14+C15+C17.views-agree') + [
             ('C17.one-item-fewer', l1.len == n - 1),
             ('C17.items-before-untouched', S.FA([p], z3.Implies(z3.And(0 <= p, p < idx), l1.get(p) == l0.get(p)), patterns=[l1.get(p)])),
             ('C17.items-after-move-down-by-one', S.FA([p], z3.Implies(z3.And(idx <= p, p < n - 1), l1.get(p) == l0.get(p + 1)), patterns=[l1.get(p)])),
@@ -617,7 +617,8 @@ def register5(R):
                    raises=[Raises('IndexError', when=oob, exact=True, name='C17.IndexError-iff-out-of-range')], result=P.val('result', 'any'),
                    loops={0: Loop(del_inv, mod_locals=['i'], mod_fields=FLAGMODS,
                                   mod_at=lambda c, L: [(f, [chref(L.entry_heap, c.ref('self'))]) for f in DM] + [(f, [c.ref('self')]) for f in LM])},
-                   props=('C17', 'C16')))
+                   props=('C17', 'C16', 'C14', 'C15'),
+                   note='removal of a list element (reached from merges that delete an element: C14 "a placeholder deleted by a later stage does not count", C15 repeat-last): both views shifted'))
 
 
 def _cls_stable(h0, h1):
